@@ -241,13 +241,26 @@ CLAIMED.update({
               'every configuration: C06_resume_accepted, C06_resume_parked, C06_later_resume_ignored, C06_parked_not_overwritten, '
               'C06_wake_rearms, C06_retracted_pause_keeps_wakeup. The workchain clause (each awaited result in the context) is C10; '
               'no_loop_errors is decided by the correspondence and the monitor.'),
-    'C10': pm('Theorem C10_barrier over whole histories (every program, every completion order and placement, pause / play / kill / '
-              'fail / cancel / call_soon events in between; external resume() on the workchain excluded): the wait of the WAITING '
-              'state holds or has parked a result only when nothing is awaited any more, so the next step is activated only after '
-              'every awaited item was processed; plus the mechanism theorems C10_done_stores_and_waits, C10_last_done_completes, '
-              'C10_failed_item_fails_wait, C10_failed_wait_excepts. That every processed result is found in the context under its '
-              'key (later assignment wins), both registration styles and killed children are decided by the correspondence and the '
-              'monitor.'),
+    'C10': pm('History level, for every program whose ToContexts name distinct futures (B10.AwDistinct: the awaiting map is a dict), every '
+              'number of futures and every history that is well formed (B10.histOk: a resume() only while the current state awaits '
+              'nothing, completions carry an outcome) and in which no callback runs out of the model\'s fuel (H6.histFuelOk, as for C06): '
+              'C10_next_step_finds_every_result (split the history where the chain is WAITING on aw0 with nothing delivered; the first '
+              'event that logs an activation afterwards is a tick of the stepping task, the first activation it logs is the '
+              'continuation of that wait, that tick does not touch the context, and for every awaitable (f, k) of aw0 the future '
+              'completed with a result and the context maps k to it - to the one processed last if several futures share the key), '
+              'C10_next_step_finds_result_under_its_key (a key given to one future is mapped to exactly its result: an earlier value '
+              'under that key has been replaced), C10_context_is_a_map / C10_ctx_lookup (context keys are distinct in every reachable '
+              'configuration, no hypothesis), C10_failed_item_never_activates (after the done-callback of an awaited future that failed '
+              'with e - a killed child is exc KilledError - processed first, no activation is ever logged again and the process holds e '
+              'or has terminated, whatever follows), C10_held_failure_excepts (a held failure e ends a playing process EXCEPTED with '
+              'exactly e at the next tick, no activation). C10_barrier (no resume) and C10_barrier_resume_ok (harmless resumes) over '
+              'whole histories: the wait holds or has parked a result only when nothing is awaited any more. Every hypothesis is shown '
+              'necessary in the model by a witness: C10_witness_resume_bypasses_barrier / C10_barrier_full_is_false / '
+              'C10_next_step_full_is_false (resume() on a work chain completes the wait whatever is awaited - the library does the '
+              'same), C10_witness_duplicate_future, C10_witness_pending_completion, C10_witness_fuel_exhaustion (model artefacts). '
+              'Helper invariants: B10.G (no stale done-callbacks), B10.Bar (phases of one wait) in PM/Proof13*.lean. Plus the mechanism '
+              'theorems C10_done_stores_and_waits, C10_last_done_completes, C10_failed_item_fails_wait, C10_failed_wait_excepts. Both '
+              'registration styles, killed children launched for real and no_loop_errors are decided by the correspondence and the monitor.'),
     'C13': pm('Theorems C13_activation_exact, C13_continue_exact, C13_wait_resume_exact, C13_stop_exact, C13_kill_command, '
               'C13_raise_excepts: for every configuration in which a step ends undisturbed, the next state / activation is exactly '
               'what the returned command says, with exact positional and keyword arguments. Restoring from a checkpoint between '
